@@ -661,7 +661,8 @@ MANIFEST_META = {
                   "one algebra with and without a wrapper; every step must return what a fresh algebra returns and no earlier "
                   "multivector may change. A quarter of the histories are split over 2-3 threads whose interleaving is a "
                   "Hypothesis-drawn schedule executed by a deterministic scheduler, so failures shrink and replay."
-                  " Since rounds 3-4: results are compared exactly incl. stored keys and explicit zeros (same deterministic computation); number operands of hash-equal value but different type follow each other; steps feed earlier results back in (the fresh algebra rebuilds them from keys and values), read alg.blades, invert scalars (d>=6 too), overwrite array-valued operands in place between two uses; pools may hold an operand mixing a sympy symbol with numbers.",
+                  " Since rounds 3-4: results are compared exactly incl. stored keys and explicit zeros (same deterministic computation); number operands of hash-equal value but different type follow each other; steps feed earlier results back in (the fresh algebra rebuilds them from keys and values), read alg.blades, invert scalars (d>=6 too), overwrite array-valued operands in place between two uses; pools may hold an operand mixing a sympy symbol with numbers."
+                  " A third of the d=7 histories run on a graded (lazily built) algebra with repeated alg.blades reads.",
     "level_note": "Preemption explored at call/line granularity owned by the harness, not between bytecodes; no true parallelism; "
                   "wrapper is a Python pass-through (numba absent). d<=3 quick, d<=4 thorough.",
 }
